@@ -201,6 +201,7 @@ impl Shrinker {
                 | OpKind::Find { re: ReRef::Shared(i), .. }
                 | OpKind::Replace { re: ReRef::Shared(i), .. }
                 | OpKind::Burst { re: ReRef::Shared(i), .. }
+                | OpKind::ReplacePanic { re: ReRef::Shared(i), .. }
                 | OpKind::CloneRegex { re: i, .. }
                 | OpKind::Compile { re: i, .. } => fix(i),
                 OpKind::ReplaceNested { re, inner, .. } => {
@@ -243,6 +244,7 @@ impl Shrinker {
                 | OpKind::ReplaceNested { hay, .. }
                 | OpKind::Rewrite { hay, .. }
                 | OpKind::Burst { hay, .. }
+                | OpKind::ReplacePanic { hay, .. }
                 | OpKind::Compile { hay, .. } => fix(hay),
                 _ => {}
             });
